@@ -7,9 +7,12 @@ pub mod c06;
 pub mod c07;
 pub mod c08;
 pub mod c09;
+pub mod c11;
+pub mod c14;
 pub mod c15;
 pub mod c16;
 pub mod c18;
+pub mod c20;
 pub mod kb;
 pub mod smoke;
 pub mod wire;
@@ -33,8 +36,11 @@ pub fn dispatch(prop: &str, p: &Params) -> Option<Report> {
             c15::run_r0(p, &mut rep);
             rep
         }
+        "C11" => c11::run(p),
+        "C14" => c14::run(p),
         "C16" => c16::run(p),
         "C18" => c18::run(p),
+        "C20" => c20::run(p),
         "C09" => c09::run(p, "C09"),
         "C10" => c09::run(p, "C10"),
         _ => return None,
